@@ -4,7 +4,7 @@ import json
 import random
 
 from . import gen
-from .common import Report, run_driver_parallel, seed, log, load_findings
+from .common import Report, run_driver_parallel, run_codec_grouped, seed, log, load_findings
 from .impl import run_cases, schema_to_wire
 
 # ------------------------------------------------------------------ implementation side (workers)
@@ -222,9 +222,9 @@ def run(prop, tier, replay=None):
     rep = Report(prop, tier)
     rng = random.Random(seed() * 1000003 + {"C01": 1, "C02": 2, "C16": 16}.get(prop, 0))
     rep.check_proofs()
-    n_schemas, n_values = (120, 8) if tier == "quick" else (1500, 24)
+    n_schemas, n_values = (300, 10) if tier == "quick" else (3000, 24)
     if prop == "C16":
-        n_schemas, n_values = (50, 4) if tier == "quick" else (800, 12)
+        n_schemas, n_values = (150, 6) if tier == "quick" else (1500, 12)
 
     descs = []
     if replay is not None:
@@ -282,9 +282,11 @@ def run(prop, tier, replay=None):
                 for _ in range(nv):
                     for _try in range(20):
                         pv = gen.gen_value(rng, d, t)
-                        if len(json.dumps(pv[1])) < 6000:
+                        if len(json.dumps(pv[1])) < 900:
+                            vals.append(pv)
                             break
-                    vals.append(pv)
+                    else:
+                        rep.hist("skipped", "value too large for the size cap")
             for py, mv in vals:
                 cases.append((i, name, py, mv))
             for kind_, off in field_offsets_mod8(d, name):
@@ -303,10 +305,7 @@ def run(prop, tier, replay=None):
         [{"text": texts[i], "struct": name, "value": py} for (i, name, py, mv) in cases], timeout_s=20,
     )
     # model: spec bytes + PyCodec model bytes
-    lean_cases = [
-        {"op": "codec", "schema": wires[i], "struct": name, "value": mv} for (i, name, py, mv) in cases
-    ]
-    model = run_driver_parallel(lean_cases)
+    model = run_codec_grouped([(wires[i], name, {"value": mv}) for (i, name, py, mv) in cases])
 
     dec_jobs = []  # (case idx, kind, bytes)
     for ci, ((i, name, py, mv), e, m) in enumerate(zip(cases, enc, model)):
@@ -348,8 +347,10 @@ def run(prop, tier, replay=None):
             dec_jobs.append((ci, "own", ib))
         if prop in ("C16",) or tier == "thorough" or ci % 7 == 0:
             # every truncation point
-            pts = range(len(spec)) if len(spec) <= 40 or tier == "thorough" else sorted(
-                set(list(range(0, 12)) + list(range(len(spec) - 12, len(spec))) + rng.sample(range(len(spec)), 12)))
+            if len(spec) <= 40 or (tier == "thorough" and len(spec) <= 200):
+                pts = range(len(spec))
+            else:
+                pts = sorted(set(list(range(0, 8)) + list(range(len(spec) - 8, len(spec))) + rng.sample(range(len(spec)), 8)))
             for k in pts:
                 dec_jobs.append((ci, "trunc", spec[:k]))
             # corrupted length prefixes
@@ -391,9 +392,9 @@ def run(prop, tier, replay=None):
         timeout_s=30,
     )
     log(f"t={_t.time()-rep.t0:.1f}s impl decode done")
-    mres = run_driver_parallel(
-        [{"op": "codec", "schema": wires[cases[ci][0]], "struct": cases[ci][1],
-          "bytes": ([] if kind == "own-noncanonical" else bs)} for (ci, kind, bs) in dec_jobs]
+    mres = run_codec_grouped(
+        [(wires[cases[ci][0]], cases[ci][1], {"bytes": ([] if kind == "own-noncanonical" else bs)})
+         for (ci, kind, bs) in dec_jobs]
     )
     log(f"t={_t.time()-rep.t0:.1f}s phase B done")
     for (ci, kind, bs), r, m in zip(dec_jobs, dres, mres):
